@@ -69,7 +69,7 @@ def r1(ctx):
             ctx.check(var_rows, fi, "variables are the columns of the stacked data (transpose or rowvar=False)", line=s.stmt.lineno,
                       role="cov:orientation", expected="np.cov(X.T) or np.cov(X, rowvar=False)",
                       found=f"transposed={transposed} rowvar={rowvar}")
-            extra = [k for k, _ in v.kw if k not in ("bias", "rowvar")]
+            extra = [k for k, _ in v.kw if k not in ("bias", "rowvar", "ddof")]      # ddof: see R2
             if extra or len(v.args) > 1:
                 raise AnalysisError(f"numpy.cov called with {extra or 'extra positional arguments'}: effect on the estimator not modelled")
         else:
@@ -98,9 +98,26 @@ def r2(ctx):
         ctx.unrecognised(fi, "the covariance is not computed by a numpy.cov call: how the estimator flag enters an explicit formula is not modelled",
                          line=covs[0].stmt.lineno, role="bias:kw", found=str(v)[:100])
         return
+    ddof = v.kwarg("ddof")
+    if ddof is not None and ddof != tm.Lit(None):
+        # numpy.cov: an explicit ddof overrides bias; the normalisation is n - ddof, so bias=flag is ddof = 0 if flag else 1
+        f_ = Sym(flag)
+        trueish = {f_.key, tm.compare("!=", f_, 0).key, tm.compare("==", f_, 1).key, tm.negate(tm.compare("==", f_, 0)).key}
+        falseish = {tm.negate(f_).key, tm.compare("==", f_, 0).key, tm.compare("!=", f_, 1).key, tm.negate(tm.compare("!=", f_, 0)).key}
+        ps = tm.pieces_of(ddof)
+        ok = len(ps) == 2 and all((g_.key in trueish and v_ == tm.ZERO) or (g_.key in falseish and v_ == tm.ONE) for g_, v_ in ps) \
+            and {v_.key for _g, v_ in ps} == {tm.ZERO.key, tm.ONE.key}
+        ok = ok or ddof == tm.add(1, tm.neg(f_))
+        ctx.check(ok, fi, "numpy.cov(ddof=...) is 0 for the biased estimator and 1 otherwise, selected by the flag parameter itself",
+                  line=covs[0].stmt.lineno, role="bias:kw", expected=f"ddof = 0 if {flag} else 1 (same as bias={flag})", found=f"ddof={ddof}")
+        return _r2_call_site(ctx, ana, fi, flag)
     bias = v.kwarg("bias") if isinstance(v, App) else None
     ctx.check(bias == Sym(flag), fi, "numpy.cov(bias=...) receives the flag parameter itself", line=covs[0].stmt.lineno,
               role="bias:kw", expected=f"bias={flag}", found=f"bias={bias}")
+    _r2_call_site(ctx, ana, fi, flag)
+
+
+def _r2_call_site(ctx, ana, fi, flag):
     # call site: flag <- model.arguments.biased_covariance
     caller = ana.func(ALL_STATS)
     cs = calls_to(ana, caller, fi.qualname)
